@@ -876,6 +876,7 @@ struct Value {
 
     void Merge(Value &&val) {
         if (isUndefined()) {
+            reset();
             setTypeToArray();
         }
 
@@ -899,6 +900,7 @@ struct Value {
 
     void Merge(const Value &val) {
         if (isUndefined()) {
+            reset();
             setTypeToArray();
         }
 
@@ -2185,9 +2187,12 @@ struct Value {
             }
 
             default: {
-                number_.Natural = SizeT64{0};
             }
         }
+
+        // Every kind shares the same storage: leave all of it zeroed, so that the
+        // value can take any other kind afterwards.
+        Memory::Initialize(&array_);
     }
 
     void copyValue(const Value &val) {
